@@ -151,13 +151,26 @@ def audit_axioms(module, theorems):
 
 
 # ------------------------------------------------------------------ correspondence
+HARNESS_RETRIES = []
+
+
 def run_harness(exe, area, seed, cases, tier, extra):
     env = dict(os.environ)
     env["ASAN_OPTIONS"] = "detect_leaks=0:abort_on_error=0:allocator_may_return_null=1"
     env["UBSAN_OPTIONS"] = "print_stacktrace=1"
     cmd = [exe, area, "--seed", str(seed), "--cases", str(cases), "--tier", tier] + list(extra)
-    r = subprocess.run(cmd, capture_output=True, env=env)
-    return cmd, r.returncode, r.stdout.decode(errors="replace"), r.stderr.decode(errors="replace")
+    # a run that was killed from outside or produced no trace at all (machine overload, a cache file pruned by a
+    # concurrent build) says nothing about the property: it is repeated, at most twice; a deterministic crash stays
+    for attempt in range(3):
+        if not os.path.exists(exe):
+            break
+        r = subprocess.run(cmd, capture_output=True, env=env)
+        out = r.stdout.decode(errors="replace")
+        if r.returncode >= 0 and out.strip():
+            break
+        log("harness run gave no trace (rc %d), attempt %d" % (r.returncode, attempt + 1))
+        HARNESS_RETRIES.append((area, r.returncode))
+    return cmd, r.returncode, out, r.stderr.decode(errors="replace")
 
 
 def run_model(trace_text):
@@ -431,7 +444,7 @@ def main():
             "correspondence_mismatches": len(mismatches),
             "direct_property_failures": len(pred_failures),
             "sanitizer_reports": len(san_reports),
-            "notes": notes,
+            "notes": notes + (["harness runs repeated because they gave no trace (killed / overloaded): %r" % (HARNESS_RETRIES,)] if HARNESS_RETRIES else []),
             "exhaustive": False,
         },
         "assumptions": P.get("assumptions", []),
